@@ -375,6 +375,9 @@ func (ms *Modules) Process() []error {
 	// made by the same caller.
 	ms.mergedSubmodule = map[string]bool{}
 	ms.ClearEntryCache()
+	// The imports and includes are bound afresh: a revision loaded since
+	// the last call may be what an import now denotes.
+	ms.includes = map[*Module]bool{}
 
 	errs := ms.process()
 	if len(errs) > 0 {
